@@ -139,8 +139,11 @@ class Gen:
         if name == "native":
             kind = rng.choice(pf["natives"])
             c2 = dict(ctx, loops=[], lblocks=[], in_try=False, in_finally=False, in_cb=True)
-            return {"t": "native", "k": self.nk(), "kind": kind, "rv": rng.choice((0, 1, 2)),
+            node = {"t": "native", "k": self.nk(), "kind": kind, "rv": rng.choice((0, 1, 2)),
                     "b": self.block(depth + 1, c2, rng.randrange(1, 3))}
+            if kind not in ("getter", "setter") and rng.random() < 0.35:
+                node["arrow"] = True      # the callback is an arrow function with a block body
+            return node
         if name == "call":
             return {"t": "call", "k": self.nk(), "f": rng.randrange(ctx["fn"] + 1, ctx["nfn"]), "ctx": rng.choice(pf["ctxs"])}
         if name in ("break", "continue"):
@@ -281,7 +284,8 @@ def r_stmt(s, ind=""):
     if t == "native":
         k, kind, rv = s["k"], s["kind"], s["rv"]
         body = r_block(s["b"], i2)
-        fn = "function(a,b){\n%s\n%sreturn %d;\n%s}" % (body, i2, (rv - 1) if kind == "sort" else rv, ind)
+        head = "(a,b) => {" if s.get("arrow") else "function(a,b){"
+        fn = "%s\n%s\n%sreturn %d;\n%s}" % (head, body, i2, (rv - 1) if kind == "sort" else rv, ind)
         if kind in ("forEach", "map", "filter", "some", "every", "find", "findIndex", "reduce"):
             return "%spv(%d, A2.%s(%s));" % (ind, k, kind, fn)
         if kind == "sort":
@@ -845,6 +849,8 @@ def features(case, res=None):
             feats.add("loop:" + s["kind"])
         elif t == "native":
             feats.add("native:" + s["kind"])
+            if s.get("arrow"):
+                feats.add("arrow-callback")
         elif t == "call":
             feats.add("call:" + s["ctx"])
         elif t == "lblock":
@@ -968,6 +974,10 @@ def _shrink_candidates(case):
                 c = _clone(case)
                 _blocks(c["prog"])[bi][si]["n"] = 1
                 yield _resched(c, case)
+            if s["t"] == "native" and s.get("arrow"):
+                c = _clone(case)
+                _blocks(c["prog"])[bi][si].pop("arrow")
+                yield c
             if s["t"] == "native" and s["kind"] != "forEach":
                 c = _clone(case)
                 _blocks(c["prog"])[bi][si]["kind"] = "forEach"
